@@ -9,7 +9,7 @@ void harness(void)
     xv_ctl_ghost_havoc();
     xv_ctl_g_foreign = nondet_bool(); xv_ctl_g_fev = nondet_int();
     struct ctl *ctl;
-    long e0 = xv_ctl_ep_ops;
+    unsigned long e0 = xv_ctl_ep_ops;
     accept_client(ctl);
     if (!xv_ctl_readable) XV_CANARY("no connection waiting");
     if (xv_ctl_readable && xv_ctl_accept_rc < 0) XV_CANARY("accept failed");
